@@ -81,7 +81,7 @@ def build(repo):
 // R8: the match of %(fname)s, verbatim; it receives the alternatives of the grammar rule `%(gram)s`
 pub fn table_%(fname)s(rule: Rule) -> (op: Operation)
     requires in_%(gram)s(rule),
-    ensures op == c_op_of(rule), //@ C01,C15:parser-operator-table-%(short)s
+    ensures op == c_op_of(rule), //@ C01,C15,C10:parser-operator-table-%(short)s
 {
 %(body)s
     op
